@@ -7,7 +7,8 @@
 set -u
 cd "$(dirname "$0")"
 export CARGO_NET_OFFLINE=true
-GENSIM=/verif/gensim
+ROOT="$PWD"
+GENSIM="$ROOT/gensim"
 BIN=$GENSIM/target/release/gensim
 
 build() {
@@ -37,7 +38,8 @@ case "${1:-}" in
       quick|thorough)
         tier="${VERIF_TIER:-$1}"
         [ "$1" = thorough ] && tier=thorough
-        exec "$BIN" check --tier "$tier" --seed "${VERIF_SEED:-1}"
+        exec "$BIN" check --tier "$tier" --seed "${VERIF_SEED:-1}" \
+          --evidence "$ROOT/evidence/C18.json" --replay-dir "$ROOT/replays" --known "$ROOT/KNOWN_FINDINGS.json"
         ;;
       *) echo "usage: ./run.sh C18 quick|thorough|--replay <file>" >&2; exit 2 ;;
     esac
